@@ -358,11 +358,6 @@ Section Model.
   Notation M := (M T).
   Notation cval := (cval T).
 
-  Definition write_v (r : vref T) (ws : list vwrite) : M (vref T) :=
-    match r with
-    | VOwn v => ret (VOwn (apply_vws v ws))
-    | VAlias => _ <- modify (fun p => dvm_set (apply_vws (rdv VAlias p) ws) p) ;; ret VAlias
-    end.
   Definition write_m (r : mref T) (ws : list mwrite) : M (mref T) :=
     match r with
     | MOwn m => ret (MOwn (apply_mws m ws))
@@ -415,7 +410,10 @@ Section Model.
              ret (CV (VOwn (k_dv_bmm K B d n)))
     | Some _ =>
         if has_func then
-          r <- dvm_ref_wt ;; lf <- val get_lf ;; r' <- write_v r (dv_func_writes (as_l lf)) ;; ret (CV r')
+          (* data_vector = copy.copy(self._data_vector_mapper)  (/repo 95fc1c6: the function rows are assigned into a COPY;
+             before that commit they were assigned into the preloaded Preloads.data_vector_mapper array itself) *)
+          r <- dvm_ref_wt ;; v <- gets (rdv r) ;; lf <- val get_lf ;;
+          ret (CV (VOwn (apply_vws v (dv_func_writes (as_l lf)))))
         else
           s <- gets (@s_dvm T) ;;
           match s with
@@ -921,11 +919,8 @@ Definition store_close (a b : pstore Q) : bool :=
   && option_eqb (list_eqb (qmclose qtol)) (s_dlf a) (s_dlf b)
   && option_eqb (list_eqb (qmclose qtol)) (s_momm a) (s_momm b)
   && option_eqb (qclose qtol) (s_ldr a) (s_ldr b).
-(* the slots that must stay untouched: everything except the one array the w-tilde class completes in place
-   (data_vector_mapper: the function rows are assigned into the preloaded vector) *)
-Definition frozen (p : pstore Q) : pstore Q :=
-  {| s_use_wt := s_use_wt p; s_wt := s_wt p; s_omm := s_omm p; s_curv := s_curv p; s_cmd := s_cmd p;
-     s_reg := s_reg p; s_dvm := None; s_lf := s_lf p; s_dlf := s_dlf p; s_momm := s_momm p; s_ldr := s_ldr p |}.
+(* the slots that must stay untouched: ALL of them (since /repo 95fc1c6 the w-tilde class no longer assigns the function rows
+   into a preloaded data_vector_mapper) *)
 Definition store_same_exact (a b : pstore Q) : bool :=
   let me := list_eqb (list_eqb Qeq_bool) in
   option_eqb Bool.eqb (s_use_wt a) (s_use_wt b)
@@ -1002,8 +997,8 @@ Definition spec_ok (k : case) : bool :=
       && forallb (fun qo1 => forallb (fun qo2 =>
                     if list_eqb (@qty_eqb) (fst qo1) (fst qo2) then outs_close (snd qo1) (snd qo2) else true)
                     (combine h outs)) (combine h outs)
-      (* the preloaded curvature matrix (and every slot other than data_vector_mapper) is unchanged *)
-      && store_same_exact (frozen post) (frozen pre)
+      (* the preloaded curvature matrix (and every other slot, data_vector_mapper included) is unchanged *)
+      && store_same_exact post pre
   | KNoise inp pre raised =>
       (* InversionException exactly when the w-tilde class is built with a w_tilde whose value differs from noise_map[0] *)
       let uses_wt := negb (forallb (fun o => negb (lo_mapper o)) (in_objs inp)) && in_use_wt inp
